@@ -8,14 +8,19 @@ from tie.framework import g_Z, g_bool, g_list, g_nat, g_opt, g_pair, g_str, run_
 
 PROP = "C14"
 IMPORTS = "From JV Require Import Lib.Base Model.C14ClassSpec Model.C14Containers Spec.C14Spec Corr.C14Judge."
-RULE = ("seeded random class families in one generated module (4-8 classes: roots, single/multiple inheritance, "
+RULE = ("seeded random class families (4-8 classes: roots, single/multiple inheritance, "
         "abstract classes, **kwargs classes, int/str/Class/Optional[Class] parameters added or overridden in "
-        "subclasses, functions returning a class, a non-class constant) x specs for a random declared type: explicit "
+        "subclasses, functions returning a class, a non-class constant; 35 % of the class-typed parameters default to a class "
+        "spec lazy_instance(Sub, ..) naming a concrete, mostly proper, subclass; 35 % of the families are laid out as a package "
+        "whose last 1-3 classes live in submodules s1/s2 and whose __init__ re-exports some of them under their own name, "
+        "under the name of ANOTHER submodule class, or under a new name) x specs for a random declared type: explicit "
         "{class_path, init_args, dict_kwargs} (valid / wrong class / abstract / non-class / missing import / unknown or "
         "ill-typed init_args), short forms (name only, init_args without class_path, bare dict, dotted "
-        "--x.k / --x.init_args.k / nested --x.p.k / --x.dict_kwargs.k) each run together with its explicit twin, "
+        "--x.k / --x.init_args.k / nested --x.p.k / --x.dict_kwargs.k; init_args-only / bare dicts / dotted keys for a "
+        "nested parameter that rely on the class of its default; class paths in canonical, long (pkg.sub.Name) or re-exported "
+        "form) each run together with its explicit twin, "
         "class changes between argv items (top level and nested, a quarter of them with dict_kwargs on both sides), "
-        "argument defaults, parse_object channel; plus 55 hand-made cases in every run (dotted null two levels down, "
+        "argument defaults, parse_object channel; plus 111 hand-made cases in every run (dotted null two levels down, "
         "functions with related/unrelated return type, same-named parameter of another type across a class change, "
         "dict_kwargs naming a parameter, abstract declared type, two-level nested construction, prefix-named options / "
         "parameters with merged config sources, a family that grows between two parses, Dict[str, C] / List[C] options in "
@@ -38,9 +43,13 @@ TRUSTED = [
     "CPython class creation/import/call binding for the generated modules; inspect.signature",
 ]
 ASSUMPTIONS = [
-    "one generated module per family (classes may be defined in it in two stages); class names unique; constructors take keyword-only explicit parameters, do not "
+    "one generated module or package per family (a module may be defined in two stages; a package is loaded whole, all its "
+    "submodules imported by __init__; no path through a name that a submodule merely imported); class names unique; constructors take keyword-only explicit parameters, do not "
     "call super().__init__ and log (id, type name, kwargs); functions forward their keywords to the returned class",
     "string values are identifiers that YAML loads as str (no numeric-looking strings); null only for Optional[Class]",
+    "a class with a parameter defaulting to a class spec has no **kw (with **kw the parameter resolver falls back to "
+    "collecting the parents' parameters: C13's business), such defaults have int/str init_args only, and functions always "
+    "forward such a parameter",
     "parameter types int / str / Class / Optional[Class]; Dict[str, Class] / List[Class] only as the type of the option itself "
     "(not of constructor parameters); Union-of-class, protocols, Callable[..., Class] and custom instantiators are not "
     "generated",
@@ -68,7 +77,8 @@ FINDING_CLASSES = {1: "nested-null-restringified"}
 # applied to /repo set this to "judge_fixed" (model with the NestedArg value handed down unchanged, no finding class).
 JUDGE = os.environ.get("C14_JUDGE", "judge_fixed")  # repair landed: /repo 389f511
 META = {
-    "level_text": "Proved in Coq for ALL well-formed class families, declared types, defaults and argv sequences of the model "
+    "level_text": "Proved in Coq for ALL well-formed class families (one module or a package with submodules and re-exports, "
+                  "fam_wf), declared types, defaults and argv sequences of the model "
                   "(coq/Properties/C14.v): C14_accepted_is_subclass_and_valid — every value parse accepts names a class that "
                   "is a subclass of the declared type (or a function returning one) and its init_args are valid for that very "
                   "callable (every key a parameter, every value of the parameter's type recursively, required parameters "
@@ -76,18 +86,26 @@ META = {
                   "node, children are built first and the returned object is exactly the one the configuration denotes (named "
                   "class, init_args updated by dict_kwargs, nested objects passed); C14_accepted_builds_configured_object — an "
                   "accepted spec without abstract classes whose dict_kwargs go to **kwargs callables instantiates without "
-                  "TypeError and yields that object. C14_dotted_null_refuted exhibits the one finding (dotted sub-option with "
-                  "null two levels down is rejected while the explicit form is accepted). The Gallina model is tied to the real "
+                  "TypeError and yields that object; C14_short_forms_same_run — class name only, init_args without class_path, "
+                  "bare dict and one-level dotted items can be replaced by their explicit form without changing the run. "
+                  "C14_dotted_null_refuted exhibits the one finding (fixed in /repo 389f511: dotted sub-option with "
+                  "null two levels down was rejected while the explicit form was accepted). The Gallina model is tied to the real "
                   "parse_args/parse_object + instantiate_classes on generated class families written to real modules (1800 "
                   "cases quick, 17k thorough); model agreement, spec agreement and the explicit-form twin are judged inside Coq.",
-    "level_note": "Partial: short-form = explicit-form (S3) is NOT a theorem; it is checked per case by running each case and "
+    "level_note": "Partial: C14_accepted_is_subclass_and_valid and C14_accepted_builds_configured_object assume fam_wf, which "
+                  "excludes parameter defaults that are class specs (lazy_instance): those families are generated and judged "
+                  "(fam_wf_ext) but only tied per case; C14_instantiate_exact and the short-form theorems hold for them too. "
+                  "short-form = explicit-form (S3) is a theorem only for the shallow forms and w.r.t. the class current in the model "
+                  "state; dotted keys two or more levels deep, short forms inside nested values (also those relying on the "
+                  "class of a parameter's default) and Spec.expand_steps itself are checked per case by running each case and "
                   "its explicit twin (computed by Spec.expand_steps, re-computed in Coq) through the implementation; that every "
                   "object is handed on once (no aliasing) and that a fully explicit valid spec is accepted (S4) are likewise "
-                  "only checked per case, as are the independence of several class-typed options under merged config sources and bare-name resolution in a family that grows between parses. dict_kwargs are treated as documented (not validated): a TypeError caused only by a "
+                  "only checked per case, as are the independence of several class-typed options under merged config sources and "
+                  "bare-name resolution in a family that grows between parses. dict_kwargs are treated as documented (not validated): a TypeError caused only by a "
                   "dict_kwargs key the callable cannot take is allowed by the spec. Trusted: Coq kernel/VM; faithfulness of the "
                   "hand-written model outside the generated cases (the clone/update choreography between adapt_class_type, "
-                  "ActionTypeHint.__call__ and merge_config is collapsed to its net effect); the harness; import_object / "
-                  "get_import_path for a single generated module; the per-element model of Dict[str, C] / List[C] options and "
+                  "ActionTypeHint.__call__ and merge_config is collapsed to its net effect); the harness; the model of "
+                  "import_object / get_import_path for one module or package (import_obj, path_of); the per-element model of Dict[str, C] / List[C] options and "
                   "the product model of several options are correspondence-only; Union-of-class, protocols, "
                   "Callable[..., Class] and custom instantiators are outside the modelled space. No axioms.",
     "technique": "Rocq proof by induction on the model's recursion fuel over a structural validity predicate (two-pass "
@@ -1040,6 +1058,46 @@ def fixed_cases():
         out.append(cont_case(f, base, "list", [{"list": lfirst, "via": "opt"}, {"list": [ia(a=0)], "via": "opt"}]))
         out.append(cont_case(f, base, "list", [{"list": lfirst, "via": "cfg"}, {"append": S("S1")}, {"last": ["b"], "raw": S("q")},
                                                {"last": ["init_args", "a"], "raw": I(6)}]))
+    # a class-typed parameter nested in another class whose DEFAULT is a class spec naming a proper subclass
+    # (lazy_instance(Sub, y=7)): short forms rely on the default's class, whatever was given for the outer class before
+    dspec = lambda cls, **kw: {"spec": {"cp": "jvfix8." + cls, "ia": [[k, I(v)] for k, v in kw.items()], "dk": []}}  # noqa: E731
+    f = {"mod": "jvfix8", "funcs": [], "consts": ["K0"], "subs": [], "exports": [], "classes": [
+        _K("Base", [], [_P("x", ["int"], I(1))]),
+        _K("Sub", ["Base"], [_P("x", ["int"], I(2)), _P("y", ["int"], I(3))]),
+        _K("Oth", ["Base"], [_P("y", ["int"], I(4)), _P("z", ["int"], I(5))]),
+        _K("Outer", [], [_P("name", ["str"], S("n")), _P("inner", ["cls", "Base"], dspec("Sub", y=7)),
+                         _P("opt", ["opt", "Base"], dspec("Oth", z=8))])]}
+    osp = lambda inner: D(("class_path", S("jvfix8.Outer")), ("init_args", D(("inner", inner))))  # noqa: E731
+    add(f, "Outer", [{"raw": S("Outer")}])
+    for inner in (D(("init_args", D(("x", I(5))))), D(("x", I(5))), D(("init_args", D(("y", I(9))))), S("Sub"), S("Oth"),
+                  D(("class_path", S("Oth")), ("init_args", D(("z", I(1))))), S("Base")):
+        add(f, "Outer", [{"raw": osp(inner)}])
+        add(f, "Outer", [{"raw": osp(inner)}], channel="object")
+    add(f, "Outer", [{"nested": ["inner", "x"], "raw": I(5)}])
+    add(f, "Outer", [{"nested": ["inner", "init_args", "y"], "raw": I(9)}])
+    add(f, "Outer", [{"nested": ["name"], "raw": S("z")}, {"nested": ["inner", "x"], "raw": I(5)}])
+    add(f, "Outer", [{"nested": ["inner", "x"], "raw": I(5)}, {"nested": ["name"], "raw": S("z")}])
+    add(f, "Outer", [{"nested": ["inner"], "raw": S("Oth")}, {"nested": ["inner", "z"], "raw": I(6)}])
+    add(f, "Outer", [{"nested": ["opt"], "raw": N}])
+    add(f, "Outer", [{"nested": ["opt", "y"], "raw": I(1)}])
+    add(f, "Outer", [{"nested": ["opt"], "raw": N}, {"nested": ["opt", "y"], "raw": I(1)}])
+    add(f, "Outer", [{"nested": ["opt"], "raw": S("Sub")}])
+    out.append(cont_case(f, "Outer", "list", [{"list": [osp(D(("init_args", D(("x", I(3))))))], "via": "opt"}]))
+    # a family spread over a package: __init__ re-exports Disc under the name of ANOTHER class (Circle), Ruler under its
+    # own name (its canonical path gets shorter) and Circle under a new name
+    f = {"mod": "jvfix9", "funcs": [], "consts": ["K0"], "classes": [
+        _K("Base", [], [_P("a", ["int"], I(1))]),
+        _K("Circle", ["Base"], [_P("r", ["int"], I(1))]), _K("Ruler", ["Base"], [_P("l", ["int"], I(2))]),
+        _K("Disc", ["Base"], [_P("r", ["int"], I(3)), _P("w", ["int"], I(4))]), _K("Lone", [], [_P("q", ["int"], I(0))])],
+        "subs": [["Circle", "s1"], ["Ruler", "s1"], ["Disc", "s2"], ["Lone", "s2"]],
+        "exports": [["Circle", "Disc"], ["Ruler", "Ruler"], ["Alias0", "Circle"], ["Lone", "Lone"]]}
+    for cp in ("jvfix9.s1.Circle", "jvfix9.Circle", "jvfix9.s2.Disc", "jvfix9.s1.Ruler", "jvfix9.Ruler", "jvfix9.Alias0",
+               "Circle", "Disc", "Ruler", "jvfix9.s2.Lone", "jvfix9.Lone", "jvfix9.s1.Disc", "jvfix9.s1", "jvfix9.s3.Circle"):
+        add(f, "Base", [{"raw": S(cp)}])
+        add(f, "Base", [{"raw": D(("class_path", S(cp)), ("init_args", D(("r", I(5)))))}])
+    add(f, "Base", [{"raw": S("jvfix9.s1.Circle")}, {"nested": ["r"], "raw": I(6)}])
+    add(f, "Base", [{"raw": S("jvfix9.Circle")}, {"nested": ["w"], "raw": I(6)}])
+    add(f, "Base", [{"raw": S("jvfix9.s1.Circle")}, {"raw": S("jvfix9.Circle")}, {"nested": ["r"], "raw": I(6)}])
     return out
 
 
